@@ -56,7 +56,7 @@ CHECKS = {
             "DESIGN.md §6 C09"),
     "C10": ("worldsim", "exploration",
             "deterministic simulation: simulated worlds and bounded-delay traces through the real sort stage with real, stale and empty lifecycle tables",
-            "Seeded search, two kinds of runs: (perm) simulated worlds through the real lifecycle stage and the real sorter with the real table, a shifted/partial stale table or an empty table over windows {1,2,3,10,255} s x minimum delays {0,1 ms,2 s,20 s}: output must be a permutation, every message unchanged; (order) generated multi-ECU/multi-lifecycle traces with non-decreasing reception times (ties included) and per-message buffering delay within the minimum (at the bound, 'negative'/capped, control requests): output ordered by (calculated time, original position); the precondition is re-checked on the concrete case. Sampling, not proof.",
+            "Seeded search, two kinds of runs: (perm) simulated worlds through the real lifecycle stage and the real sorter with the real table, a shifted/partial stale table or an empty table over windows {1,2,3,10,255} s x minimum delays {0,1 ms,2 s,20 s,1500 s,u64::MAX-10,u64::MAX}: output must be a permutation, every message unchanged; (order) generated multi-ECU/multi-lifecycle traces with non-decreasing reception times (ties included) and per-message buffering delay within the minimum (a fifth of the cases with minima beyond the sorter's 1000 s start-up allowance up to u64::MAX and a recording that starts up to 5000 s after the lifecycles; at the bound, 'negative'/capped, control requests): output ordered by (calculated time, original position); the precondition is re-checked on the concrete case. Sampling, not proof.",
             "Calculated time as the statement defines it, lifecycle starts taken from the table handed to the sorter.",
             "DESIGN.md §6 C10"),
     "C12": ("pipesim", "exploration",
@@ -66,7 +66,7 @@ CHECKS = {
             "DESIGN.md §6 C12"),
     "C17": ("protosim", "fault_enumeration",
             "deterministic simulation with enumerated fault injection: file-transfer senders over a lossy interleaving transport into the real plugin, sandboxed disk",
-            "For every generated transfer configuration (sizes around package boundaries, package sizes 1..4096 and = file, 1-3 concurrent transfers, both byte orders, names with directory parts, interleaving with unrelated traffic, auto-save directory pre-seeded) EVERY single fault on the first transfer is enumerated: drop/duplicate (adjacent, delayed)/swap/resize of each package, drop announcement, drop end marker. Oracle: completeness exactly as stated, bit-exact content through the plugin's save command and auto-save, never complete/saved when damaged, no overwrite, nothing outside the configured directory (canary parent scanned). Configurations are sampled, faults per configuration are enumerated.",
+            "For every generated transfer configuration (sizes around package boundaries, package sizes 1..4096 and = file, 1-3 concurrent transfers - a later one in four with exactly the first one's announcement from another ECU or lifecycle -, both byte orders, names with directory parts, interleaving with unrelated traffic, auto-save directory pre-seeded) EVERY single fault on the first transfer is enumerated: drop/duplicate (adjacent, delayed)/swap/resize of each package, drop announcement, drop end marker. Oracle: completeness exactly as stated, bit-exact content through the plugin's save command and auto-save, never complete/saved when damaged, no overwrite, nothing outside the configured directory (canary parent scanned). Configurations are sampled, faults per configuration are enumerated.",
             "With the announcement dropped only the safety half is demanded; announcement always truthful; completion read from the plugin's published state.",
             "DESIGN.md §6 C17"),
     "C18": ("streamsim", "fault_enumeration",
@@ -96,8 +96,8 @@ CHECKS = {
             "DESIGN.md §6 C15"),
     "C16": ("remotesim", "exploration",
             "deterministic simulation: library-level batching simulation of the stream bookkeeping + websocket sessions against a model of the filtered sequence under seeded schedules",
-            "Seeded search, two kinds of runs: (lib) StreamContext::from + process_stream_new_msgs driven like the server loop with arbitrary arrival batchings, chunk sizes and window growth, invariant checked after every call (filtered positions == matching positions below the processed length, window bound for queries, bounded progress); (server) websocket sessions with 1-3 streams/queries (restricted filters with an independent reference predicate, windows empty/beyond the end/overlapping, binary and text), window changes, paged searches over all page sizes/start positions, index lookups: frames per announced id == model window, each once, in order, none before the announcing reply, fields and text equal to the file's, queries terminated, union of pages == matching positions, lookup == first position not before. Sampling, not proof.",
-            "sort:false at server level; time lookups not judged; 'eventually' = after the parser finished plus 300 client polls.",
+            "Seeded search, two kinds of runs: (lib) StreamContext::from + process_stream_new_msgs driven like the server loop with arbitrary arrival batchings, chunk sizes and window growth, invariant checked after every call (filtered positions == matching positions below the processed length, window bound for queries, bounded progress); (server) websocket sessions with 1-3 streams/queries (restricted filters with an independent reference predicate, windows empty/beyond the end/overlapping, binary and text; one session in 150 over a log of 8 500-20 000 messages with a late query over nearly everything), window changes, paged searches over all page sizes/start positions, index lookups: frames per announced id == model window, each once, in order, none before the announcing reply, fields and text equal to the file's, queries terminated, union of pages == matching positions, lookup == first position not before. Sampling, not proof.",
+            "Server sessions open with sort in two of five cases (an unfiltered reference stream then shows the stream order); time lookups are judged only when the stream is ordered by the lookup's notion of time; 'eventually' = after the parser finished plus 300 empty client polls (plus 4 per message for logs above 1000 messages).",
             "DESIGN.md §6 C16"),
 }
 
